@@ -9,6 +9,8 @@ CHECKS = {
     "C01": {
         "parts": [
             {"test": "TestC01Enum", "rapid": False, "quick": 0, "thorough": 0, "shards": 16, "quick_shards": 4},
+            {"test": "TestC01Enum3", "rapid": False, "quick": 0, "thorough": 0, "shards": 16, "only_tier": "thorough"},
+            {"test": "TestC01Enum3", "rapid": False, "quick": 0, "thorough": 0, "quick_shards": 4, "only_tier": "quick", "env": {"VERIF_C01_STRIDE3": "40"}},
             {"test": "TestC01", "quick": 60000, "thorough": 300000, "shards": 16, "quick_shards": 2},
         ],
         "assumptions": [
